@@ -28,7 +28,8 @@ BUILD = os.path.join(VERIF, 'build')
 EXT = os.path.join(BUILD, 'ext')
 TOOLCHAIN = '1.98.1-x86_64-unknown-linux-gnu'
 RLIMIT = '30'
-CANARY_POOL = cf.ThreadPoolExecutor(max_workers=8)
+CANARY_RLIMIT = '1'  # a canary (`ensures false`) only has to be NOT provable; resource-out counts as not provable
+CANARY_POOL = cf.ThreadPoolExecutor(max_workers=10)
 
 
 def sh(cmd, **kw):
@@ -121,8 +122,8 @@ def origin_str(origins, line):
     return '%s %s' % (o[0], o[1])
 
 
-def run_verus(path, externs, extra=(), multiple_errors='4'):
-    cmd = ['verus', path, '--output-json', '--time', '--rlimit', RLIMIT, '--multiple-errors', multiple_errors]
+def run_verus(path, externs, extra=(), multiple_errors='4', rlimit=RLIMIT):
+    cmd = ['verus', path, '--output-json', '--time', '--rlimit', rlimit, '--multiple-errors', multiple_errors]
     for n, rlib in externs.items():
         cmd += ['--extern', '%s=%s' % (n, rlib)]
     cmd += list(extra)
@@ -186,13 +187,14 @@ def process_unit(name, canary):
     json.dump(ex.rewrites, open(os.path.join(BUILD, name + '.rewrites.json'), 'w'), indent=1)
     ur.path = path
     ur.scan = scan_assumptions(text)
-    cfut = None
+    cfuts = []
     if canary and contracted:
         try:
             ctext, corigins, cex, _ = extract.build_unit(unit, REPO, udir, canary=True)
             cpath = os.path.join(BUILD, name + '_canary.rs')
             open(cpath, 'w').write(ctext)
-            cfut = CANARY_POOL.submit(run_verus, cpath, externs, (), '1')
+            for f in contracted:
+                cfuts.append((f, CANARY_POOL.submit(run_verus, cpath, externs, ('--verify-root', '--verify-function', f.qual + '__canary', '--num-threads', '1'), '1', CANARY_RLIMIT)))
         except ExtractError as e:
             ur.status = 'undecided'
             ur.reason = 'canary extraction: %s' % e
@@ -243,16 +245,15 @@ def process_unit(name, canary):
             ur.reason = 'verus failed without a classifiable diagnostic: ' + r.stderr[-2000:]
         ur.failed_groups = failed_groups
         return ur
-    # ---- vacuity canary
-    if cfut is not None:
-        ccmd, cr, cjs, cwall = cfut.result()
-        ur.wall = max(ur.wall, cwall)
-        cg = fn_breakdown(cjs) if cjs else {}
+    # ---- vacuity canary: a copy of every contracted function with `ensures false` must NOT verify
+    if cfuts:
         vac = []
-        for f in contracted:
+        for f, fut in cfuts:
+            ccmd, cr, cjs, cwall = fut.result()
+            cg = fn_breakdown(cjs) if cjs else {}
             key = [g for g in cg if g.split('::', 1)[-1] == f.qual + '__canary']
             if not key:
-                vac.append(f.qual + ' (no obligation group found)')
+                vac.append(f.qual + ' (canary not run: ' + (cr.stderr[-300:] if cr.stderr else 'no output') + ')')
                 continue
             if all(cg[g].get('success') for g in key):
                 vac.append(f.qual)
